@@ -195,7 +195,7 @@ impl FileDesc {
         {
             // Calculate the source block length of Raptor / RaptorQ
 
-            let (a_large, _, _, nb_blocks) = partition::block_partitioning(
+            let (a_large, a_small, nb_a_large, nb_blocks) = partition::block_partitioning(
                 oti.maximum_source_block_length as u64,
                 object.transfer_length,
                 oti.encoding_symbol_length as u64,
@@ -213,6 +213,19 @@ impl FileDesc {
                 return Err(FluteError::new(format!(
                     "Source blocks of {} symbols exceed the {} source symbols per block of the FEC scheme, your object is incompatible with the FEC parameters of your OTI",
                     a_large, max_block_symbols
+                )));
+            }
+
+            // The Raptor encoder cannot encode a source block of 2 or 3 source symbols:
+            // block creation fails and the object would be transmitted truncated
+            let small_block = |k: u64| k == 2 || k == 3;
+            if oti.fec_encoding_id == oti::FECEncodingID::Raptor
+                && ((nb_a_large > 0 && small_block(a_large))
+                    || (nb_blocks > nb_a_large && small_block(a_small)))
+            {
+                return Err(FluteError::new(format!(
+                    "Source blocks of 2 or 3 symbols (blocks of {} and {} symbols) cannot be encoded by the FEC Raptor, your object is incompatible with the FEC parameters of your OTI",
+                    a_large, a_small
                 )));
             }
 
